@@ -233,7 +233,7 @@ def plan(tier, seed):
     if tier == "quick":
         lay = [("jax", 9)] * 6 + [("pytorch", 16)] * 5 + [("tensorflow", 9)] * 5
     else:
-        lay = [("jax", 180)] * 6 + [("pytorch", 350)] * 5 + [("tensorflow", 180)] * 5
+        lay = [("jax", 500)] * 6 + [("pytorch", 1000)] * 5 + [("tensorflow", 500)] * 5
     return [{"backend": b, "n": n, "seed": seed * 8191 + i} for i, (b, n) in enumerate(lay)]
 
 
